@@ -9,6 +9,7 @@ import (
 	"time"
 
 	"github.com/sheerbytes/sheerbytes/internal/verifhook"
+	"github.com/sheerbytes/sheerbytes/verifharness/internal/xfer"
 )
 
 // ---- goroutine gates ---------------------------------------------------------
@@ -59,6 +60,7 @@ var extraHook func(name string, a, b uint64, s string)
 func installHooks() {
 	hooksOnce.Do(func() {
 		verifhook.Set(func(name string, a, b uint64, s string) {
+			xfer.HookTicks.Add(1)
 			hookGate(name, a, b, s)
 			if h := extraHook; h != nil {
 				h(name, a, b, s)
